@@ -435,15 +435,17 @@ class Context:
 
     def class_attr_entry_value(self, I, info, name, v0):
         """arbitrary value of a mutable class attribute at first read on a path (then stable until written)"""
+        # the value is a constant NAMED after the class, the attribute and the epoch of the state (0 = the call under verification; a
+        # continuation that fires later reads another epoch): the same unknown whether it is first read by the code or by old(...)
+        nm = 'classattr@%d!%s.%s' % (I.st.__dict__.get('class_epoch', 0), info.name, name)
         if isinstance(v0, VNone):
-            t = I.fresh('classattr_' + name, T.Obj)
-            v = VOpt(I.fresh_bool('classattr_none_' + name), VOpaque(t, 'classattr'))
+            v = VOpt(z3.Bool(nm + '.none'), VOpaque(z3.Const(nm, T.Obj), 'classattr'))
         elif isinstance(v0, VInt):
-            v = VInt(I.fresh_int('classattr_' + name))
+            v = VInt(z3.Int(nm))
         elif isinstance(v0, VBool):
-            v = VBool(I.fresh_bool('classattr_' + name))
+            v = VBool(z3.Bool(nm))
         elif isinstance(v0, VSeq):
-            v = v0.with_term(I.fresh('classattr_' + name, v0.th.sort))
+            v = v0.with_term(z3.Const(nm, v0.th.sort))
         else:
             return v0
         I.st.heap[('classvar', info.name, name)] = v
@@ -1469,6 +1471,11 @@ class Context:
             saved = I.st
             tmp = saved.snapshot()
             tmp.trace = []
+            # later state: mutable class attributes may have changed too
+            tmp.class_epoch = self.__dict__.setdefault('_epochs', 0) + 1
+            self._epochs = tmp.class_epoch
+            for k_ in [k_ for k_ in tmp.heap if isinstance(k_, tuple) and k_ and k_[0] == 'classvar']:
+                del tmp.heap[k_]
             I.st = tmp
             pure0 = I.pure
             I.pure = 0
@@ -2119,6 +2126,13 @@ class Context:
                         I.havoc_ref(cur)
                     else:
                         I.st.heap[obj.loc] = c.set(a.attr, self.loops.havoc_value(I, cur, a.attr))
+                elif isinstance(a, ast.Attribute) and isinstance(a.value, ast.Name) and a.value.id not in env:
+                    # modifies(Class._Class__attr): process-wide class-level state
+                    key_ = self.class_attr_key(a)
+                    cur = I.st.heap.get(key_)
+                    if cur is None:
+                        cur = I.getattr(VClass(self.find_class_by_name(a.value.id)), a.attr, a, Frame({}, None))
+                    I.st.heap[key_] = self.loops.havoc_value(I, cur, a.attr)
                 elif isinstance(a, ast.Attribute) and isinstance(a.value, ast.Name):
                     obj = I.unwrap(env[a.value.id])
                     c = I.cell(obj)
@@ -2131,6 +2145,12 @@ class Context:
                         I.st.heap[obj.loc] = c.set(a.attr, self.loops.havoc_value(I, cur, a.attr))
                 else:
                     raise Unsupported('modifies clause form')
+
+    def class_attr_key(self, a):
+        ci = self.find_class_by_name(a.value.id)
+        if ci is None:
+            raise Unsupported('modifies(%s): unknown class' % ast.unparse(a))
+        return ('classvar', ci.name, a.attr)
 
     def check_frame(self, I, contract, env, pre, q):
         """Frame obligations: what the contract does not list under modifies(...) is unchanged at normal exit
@@ -2197,6 +2217,23 @@ class Context:
                         detail='%s changes its kind of value but is not listed under modifies(...)' % path)
         for p, _ in contract.params:
             same(env[p], env[p], I.st.heap, pre.heap, p, 0)
+        # class-level state written by the function (self.__class__.x = ..., Class.x += 1) is process-wide: it has to be declared too
+        for key_, cur_v in list(I.st.heap.items()):
+            if isinstance(key_, tuple) and key_ and key_[0] == 'classvar':
+                path = '%s.%s' % (key_[1], key_[2])
+                if path in mod:
+                    continue
+                old_v = pre.heap.get(key_)
+                t = getattr(cur_v, 't', None)
+                if old_v is None:
+                    # first touched during the call: its entry value is the named constant of epoch 0 (class_attr_entry_value)
+                    nm = 'classattr@%d!%s.%s' % (I.st.__dict__.get('class_epoch', 0), key_[1], key_[2])
+                    if t is not None and str(t) != nm:
+                        I.prove('%s:frame[%s]' % (q, path), 'frame', t == z3.Const(nm, t.sort()), contract.node,
+                                detail='class attribute %s is written but not listed under modifies(...)' % path)
+                elif t is not None and getattr(old_v, 't', None) is not None and not z3.eq(t, old_v.t):
+                    I.prove('%s:frame[%s]' % (q, path), 'frame', t == old_v.t, contract.node,
+                            detail='class attribute %s is written but not listed under modifies(...)' % path)
 
     def elem_hint(self, contract, pname):
         for p, ty in contract.params:
@@ -2548,6 +2585,7 @@ class Context:
                 if ok is False:
                     I.prove('%s:result-type' % q, 'postcondition', False, fi.node, detail='returned %r, contract says %r' % (result, contract.ret))
             ante = self.reports[contract.key].__dict__.setdefault('ante_live', {})
+            # (the covers first, all of them: a failed post-condition is assumed afterwards and would make the later ones look dead)
             for k, c in enumerate(contract.of('ensures')):
                 e0 = c.args[0]
                 if isinstance(e0, ast.Call) and isinstance(e0.func, ast.Name) and e0.func.id == 'implies' and len(e0.args) == 2 \
@@ -2559,6 +2597,7 @@ class Context:
                         ante[k + 1] = bool(ante.get(k + 1)) or prover.feasible(self.axioms(True), I.st.pc, a_, timeout_ms=1000)
                     except Unsupported:
                         ante[k + 1] = True
+            for k, c in enumerate(contract.of('ensures')):
                 v = self.eval_spec(I, c.args[0], env, contract.sidecar, pre, entry_env, result=result, has_result=True)
                 I.prove('%s:post#%d' % (q, k + 1), 'postcondition', I.truthy(v), c)
             self.check_frame(I, contract, env, pre, q)
